@@ -84,6 +84,9 @@ def spx_site(loc, repo=vlib.REPO):
 def main(tier):
     c = vlib.Check("C01", tier)
     c.phase_proofs()
+    if tier != "quick":
+        # Props/ParseTotal.v: the per-leaf premises of the inline phase proved of the block phase (quick is at its time budget)
+        c.phase_proofs("ParseTotal")
     recs_cm = cm_tie.tie_cm(c, 500 if tier == "quick" else 8000, 200 if tier == "quick" else 3000)
     if recs_cm is None:
         c.finish(rule="build failed")
